@@ -20,7 +20,9 @@ PREPROCESS = {
 }
 LINE_POOL = ['abc', 'ab c', 'id: 12', 'id: 345', 'took 12ms', 'took 7ms', 'v1.2 ok', 'v10.31 ok', 'foo bar', 'bar',
              '', ' ', '  abc', 'abc  ', '# comment', 'x', 'xx', 'XY z', '2020-01-02 done', '1999-12-31 done',
-             'été', '日本 1', 'a\tb', '0xff', '0x1a2b', 'TAIL c', 'ab start', 'user bob', 'user alice', '12', '3']
+             'été', '日本 1', 'a\tb', '0xff', '0x1a2b', 'TAIL c', 'ab start', 'user bob', 'user alice', '12', '3',
+             # characters that str.splitlines() treats as line boundaries but reading a file line by line does not
+             'page\x0cbreak', 'v\x0bt', 'fs\x1cgs\x1drs\x1e', 'nel\x85x', 'ls\u2028x', 'ps\u2029x']
 
 
 def gen_lines(rng):
